@@ -316,6 +316,13 @@ def check_smchart(ctx, case):
             other[kk] = model[kk]
         if not (c == other):
             probs.append(("equality", False))
+        # a chart that differs in one field only by a line break at its edge is another chart
+        for kk in ("NOTES", "DESCRIPTION"):
+            near = SMChart()
+            for k2 in M.SIX:
+                near[k2] = model[k2] + ("\n" if k2 == kk else "")
+            if c == near or not (c != near):
+                probs.append(("equal to a chart whose " + kk + " has one more line break", True))
         if probs:
             ctx.violation(f"smchart:{label}", dict(extra, problems=repr(probs)[:600]))
 
@@ -368,7 +375,7 @@ def check_random(ctx, case):
     m = M.Mapping(kind)
     attrs = M.ATTRS[kind]
     alias_keys = ["FREEZES", "ANIMATIONS", "NOTES2"]
-    HARD = ["a\r\nb", "lone\rcr", "AC\\DC", "bg\\clip.avi " + "y" * 2100, "x" * 2050 + "\\", "two\nlines\r\n", "a:b", "1:2:3"]
+    HARD = ["a\r\nb", "lone\rcr", "AC\\DC", "bg\\clip.avi " + "y" * 2100, "x" * 2050 + "\\", "two\nlines\r\n", "a:b", "1:2:3", "x:y:", ":", "120.000:", "::a"]
     NEAR_MULTI = ["BPM", "DISPLAY", "ATTACK", "A", "S", "K"]   # unrelated keys that are substrings of the multi-value keys
     # unrelated keys that need escaping when written (a key-only property included); for charts also the keyword NOTEDATA
     ODD_KEYS = ["A:B", "K;", "S\\", "D//E"] + (["NOTEDATA"] if kind == "sscchart" else [])
